@@ -695,3 +695,49 @@ func VerifC01_FunctionArguments() {
 	zzverif.Assert(ok && got == interface{}(want), "user function: arguments bound or evaluated in the wrong scope")
 	zzverif.Reach("funcargs")
 }
+
+// pipes: `x |> f` is f(x), `x |> f(a)` is f(x, a); |> binds weaker than every
+// binary operator and associates to the left
+const srcPipe = `
+! dbl(n: int): int {
+  > n * 2
+}
+
+! sub(a: int, b: int): int {
+  > a - b
+}
+
+@ POST /t/:which {
+  $ a = input.a
+  $ b = input.b
+  if which == "plain" {
+    > a |> dbl
+  }
+  if which == "extra" {
+    > a |> sub(b)
+  }
+  if which == "prec" {
+    > a + 1 |> dbl
+  }
+  if which == "chain" {
+    > a |> dbl |> sub(b)
+  }
+  if which == "chain2" {
+    > a |> sub(b) |> dbl
+  }
+  if which == "argexpr" {
+    > a |> sub(b |> dbl)
+  }
+  > 0
+}
+`
+
+func VerifC01_Pipe() {
+	names := []string{"plain", "extra", "prec", "chain", "chain2", "argexpr"}
+	k := zzverif.Choice("which", len(names))
+	a, b := zzverif.Int64("a"), zzverif.Int64("b")
+	got, ok := runSource(srcPipe, map[string]interface{}{"a": a, "b": b}, map[string]string{"which": names[k]})
+	want := []int64{a * 2, a - b, (a + 1) * 2, a*2 - b, (a - b) * 2, a - b*2}[k]
+	zzverif.Assert(ok && got == interface{}(want), "pipe: "+names[k]+" evaluates to something else than the call it stands for")
+	zzverif.Reach("pipe")
+}
